@@ -1,11 +1,61 @@
 //! Verification hooks (compiled only with `--cfg kira_verif`).
 //!
 //! Thin public wrappers over crate-private items so that the verification
-//! harness in `/verif` can drive components in isolation. Nothing here
-//! changes behaviour; with the cfg off this module does not exist.
+//! harness in `/verif` can drive components in isolation, plus named yield
+//! points that let a controlled scheduler interleave threads at fixed sites.
+//! Nothing here changes behaviour; with the cfg off this module does not exist.
 #![allow(missing_docs)]
 
-use crate::{Easing, Tween};
+use std::sync::{
+	atomic::{AtomicBool, Ordering},
+	Arc, RwLock,
+};
+
+use atomic_arena::{Arena, Key};
+
+use crate::{
+	backend::resources::{ResourceController, ResourceStorage, SelfReferentialResourceStorage},
+	clock::{Clock, ClockHandle, ClockId, ClockSpeed, State as ClockState},
+	info::Info,
+	playback_state_manager::PlaybackStateManager,
+	sound::PlaybackState,
+	Decibels, Easing, ResourceLimitReached, StartTime, Tween, Value,
+};
+
+pub use crate::sound::streaming::verif as streaming;
+pub use crate::sound::verif::HTransport;
+
+// ---------------------------------------------------------------------------
+// yield points
+// ---------------------------------------------------------------------------
+
+type YieldFn = dyn Fn(&'static str) + Send + Sync;
+
+static YIELD_ENABLED: AtomicBool = AtomicBool::new(false);
+static YIELD_HOOK: RwLock<Option<Arc<YieldFn>>> = RwLock::new(None);
+
+/// Called at named sites in kira when built with `--cfg kira_verif`.
+/// A no-op unless a hook has been installed with [`set_yield_hook`].
+#[inline]
+pub fn yield_point(site: &'static str) {
+	if YIELD_ENABLED.load(Ordering::Relaxed) {
+		let hook = YIELD_HOOK.read().ok().and_then(|h| h.clone());
+		if let Some(hook) = hook {
+			hook(site);
+		}
+	}
+}
+
+/// Installs (or clears) the global yield hook.
+pub fn set_yield_hook(hook: Option<Arc<YieldFn>>) {
+	let enabled = hook.is_some();
+	*YIELD_HOOK.write().unwrap() = hook;
+	YIELD_ENABLED.store(enabled, Ordering::SeqCst);
+}
+
+// ---------------------------------------------------------------------------
+// pure functions
+// ---------------------------------------------------------------------------
 
 /// `Easing::apply`
 pub fn easing_apply(easing: Easing, x: f64) -> f64 {
@@ -15,4 +65,148 @@ pub fn easing_apply(easing: Easing, x: f64) -> f64 {
 /// `Tween::value`
 pub fn tween_value(tween: &Tween, time: f64) -> f64 {
 	tween.value(time)
+}
+
+/// Debug representation of an arena key: `(index, generation)`.
+pub fn key_repr(key: Key) -> String {
+	format!("{:?}", key)
+}
+
+// ---------------------------------------------------------------------------
+// PlaybackStateManager
+// ---------------------------------------------------------------------------
+
+pub struct HPlaybackStateManager(PlaybackStateManager);
+
+impl HPlaybackStateManager {
+	pub fn new(fade_in_tween: Option<Tween>) -> Self {
+		Self(PlaybackStateManager::new(fade_in_tween))
+	}
+	pub fn interpolated_fade_volume(&self, amount: f64) -> Decibels {
+		self.0.interpolated_fade_volume(amount)
+	}
+	pub fn playback_state(&self) -> PlaybackState {
+		self.0.playback_state()
+	}
+	pub fn pause(&mut self, fade_out_tween: Tween) {
+		self.0.pause(fade_out_tween)
+	}
+	pub fn resume(&mut self, start_time: StartTime, fade_in_tween: Tween) {
+		self.0.resume(start_time, fade_in_tween)
+	}
+	pub fn stop(&mut self, fade_out_tween: Tween) {
+		self.0.stop(fade_out_tween)
+	}
+	pub fn mark_as_stopped(&mut self) {
+		self.0.mark_as_stopped()
+	}
+	pub fn update(&mut self, dt: f64, info: &Info) -> bool {
+		self.0.update(dt, info)
+	}
+}
+
+/// `PlaybackState::is_advancing`
+pub fn playback_state_is_advancing(state: PlaybackState) -> bool {
+	state.is_advancing()
+}
+
+// ---------------------------------------------------------------------------
+// Clock
+// ---------------------------------------------------------------------------
+
+pub struct HClock(Clock);
+
+impl HClock {
+	/// A clock with a handle; `id` comes from a one-slot arena of its own.
+	pub fn new(speed: Value<ClockSpeed>) -> (Self, ClockHandle) {
+		let arena: Arena<()> = Arena::new(1);
+		let id = ClockId(arena.controller().try_reserve().unwrap());
+		let (clock, handle) = Clock::new(speed, id);
+		(Self(clock), handle)
+	}
+	pub fn on_start_processing(&mut self) {
+		self.0.on_start_processing()
+	}
+	pub fn update(&mut self, dt: f64, info: &Info) -> Option<u64> {
+		self.0.update(dt, info)
+	}
+	pub fn ticking(&self) -> bool {
+		self.0.ticking()
+	}
+	/// `None` = not started, `Some((ticks, fractional_position))` otherwise.
+	pub fn state(&self) -> Option<(u64, f64)> {
+		match self.0.state() {
+			ClockState::NotStarted => None,
+			ClockState::Started {
+				ticks,
+				fractional_position,
+			} => Some((ticks, fractional_position)),
+		}
+	}
+}
+
+// ---------------------------------------------------------------------------
+// resource storage
+// ---------------------------------------------------------------------------
+
+pub struct HStorage<T>(ResourceStorage<T>);
+pub struct HSelfRefStorage<T>(SelfReferentialResourceStorage<T>);
+pub struct HController<T>(ResourceController<T>);
+
+impl<T> HStorage<T> {
+	pub fn new(capacity: usize) -> (Self, HController<T>) {
+		let (s, c) = ResourceStorage::new(capacity);
+		(Self(s), HController(c))
+	}
+	pub fn remove_and_add(&mut self, remove_test: impl FnMut(&T) -> bool) {
+		self.0.remove_and_add(remove_test)
+	}
+	pub fn get_mut(&mut self, key: Key) -> Option<&mut T> {
+		self.0.get_mut(key)
+	}
+	/// Resources in arena iteration order.
+	pub fn items(&self) -> Vec<(Key, &T)> {
+		self.0.iter().collect()
+	}
+	pub fn is_empty(&self) -> bool {
+		self.0.is_empty()
+	}
+}
+
+impl<T: Default> HSelfRefStorage<T> {
+	pub fn new(capacity: usize) -> (Self, HController<T>) {
+		let (s, c) = SelfReferentialResourceStorage::new(capacity);
+		(Self(s), HController(c))
+	}
+	pub fn remove_and_add(&mut self, remove_test: impl FnMut(&T) -> bool) {
+		self.0.remove_and_add(remove_test)
+	}
+	/// `for_each`: visits every resource once with the rest of the arena available.
+	pub fn for_each(&mut self, f: impl FnMut(&mut T, &mut Arena<T>)) {
+		self.0.for_each(f)
+	}
+	pub fn items(&mut self) -> Vec<(Key, &mut T)> {
+		self.0.iter_mut().collect()
+	}
+}
+
+impl<T> HController<T> {
+	pub fn insert(&mut self, resource: T) -> Result<Key, ResourceLimitReached> {
+		self.0.insert(resource)
+	}
+	pub fn try_reserve(&self) -> Result<Key, ResourceLimitReached> {
+		self.0.try_reserve()
+	}
+	pub fn insert_with_key(&mut self, key: Key, resource: T) {
+		self.0.insert_with_key(key, resource)
+	}
+	pub fn capacity(&self) -> usize {
+		self.0.capacity()
+	}
+	pub fn len(&self) -> usize {
+		self.0.len()
+	}
+	pub fn is_empty(&self) -> bool {
+		self.0.len() == 0
+	}
 }
